@@ -4,6 +4,8 @@ Driver for C09.  One line = one composition tree (prefix notation) + one history
   run <node> | <op> <op> ...
   <node> ::= R tag a b c d                       recording leaf forecaster
            | E agg n (name <node>){n}             EnsembleForecaster (agg = online: OnlineEnsembleForecaster)
+           | O k <weights>{k} n (name <node>){n}  OnlineEnsembleForecaster with an ensemble algorithm; the k weight
+                                                  vectors are the weights the real algorithm held after each of its updates
            | P n (T tag k m upd skip){n} <node>   TransformedTargetForecaster with the ORIGINAL `update` (raw batch handed on; before 8cf3d7f)
            | Pf n (T ...){n} <node>               TransformedTargetForecaster as coded in /repo (update transforms the batch step by step)
            | M sel n (name <node>){n}             MultiplexForecaster (sel = name | none)
@@ -25,6 +27,7 @@ open SkVerif SkVerif.Compose SkVerif.Drv
 inductive Node
   | leaf (p : LeafP)
   | ens (agg : Option Agg) (ms : List (String × Node))
+  | online (fixed : Bool) (tape : List (List Rat)) (ms : List (String × Node))
   | pipe (fixed : Bool) (ts : List TrP) (f : Node)
   | mux (sel : Option String) (ms : List (String × Node))
   | stack (ms : List (String × Node)) (g : RegP)
@@ -34,6 +37,7 @@ instance : Inhabited Forecaster := ⟨recF ⟨"", 0, 0, 0, 0⟩⟩
 partial def build : Node → Forecaster
   | .leaf p => recF p
   | .ens agg ms => ensemble agg (ms.map (·.1)) (ms.map (fun m => build m.2))
+  | .online fixed tape ms => onlineEnsembleG fixed (tapeWeigher tape) (ms.map (·.1)) (ms.map (fun m => build m.2))
   | .pipe fixed ts f => pipelineG fixed (ts.map recT) (build f)
   | .mux sel ms => mux sel (ms.map (·.1)) (ms.map (fun m => build m.2))
   | .stack ms g => stacking (ms.map (·.1)) (ms.map (fun m => build m.2)) (recG g)
@@ -61,6 +65,8 @@ partial def parseNode? : List String → Option (Node × List String)
       let agg ← parseAgg? agg; let n ← parseNat? n
       let (ms, rest') ← parseMembers? n rest
       pure (.ens agg ms, rest')
+  | "O" :: k :: rest => parseOnline? false k rest
+  | "Of" :: k :: rest => parseOnline? true k rest
   | "P" :: n :: rest => do
       let n ← parseNat? n
       let (ts, rest') ← parseTrs? n rest
@@ -84,6 +90,15 @@ partial def parseNode? : List String → Option (Node × List String)
           pure (.stack ms ⟨tag, p, q⟩, rest'')
       | _ => none
   | _ => none
+partial def parseOnline? (fixed : Bool) (k : String) (rest : List String) : Option (Node × List String) := do
+  let k ← parseNat? k
+  let tape ← (rest.take k).mapM parseRatList?
+  match rest.drop k with
+  | n :: rest' => do
+      let n ← parseNat? n
+      let (ms, rest'') ← parseMembers? n rest'
+      pure (.online fixed tape ms, rest'')
+  | [] => none
 partial def parseMembers? : Nat → List String → Option (List (String × Node) × List String)
   | 0, toks => some ([], toks)
   | n + 1, name :: rest => do
